@@ -445,7 +445,7 @@ def caplen_overshoots(f, call, sets):
         return None
 
     def bounded(e):
-        e0 = facts.strip_all(e)
+        e0 = facts.strip_all(facts.inline_locals(f, e))
         if bound[0] == "param":
             return e0["k"] == "DeclRefExpr" and e0.get("var") == bound[1]
         if e0["k"] == "CXXMemberCallExpr" and e0.get("cname") == "size" and e0["c"][0].get("c") and \
